@@ -350,10 +350,38 @@ class Executor:
             status, model, backend, secs, text = self.solver.check(hyps, goal)
         ob = Obligation(name=name, function=f"flox.{self.contract.file[5:-3].replace('/', '.')}.{self.contract.qualname}", status={"unsat": DISCHARGED, "sat": VIOLATED, "unknown": UNDECIDED}[status], backend=backend, seconds=secs, formula=formula_text, detail=text, kind=kind)
         if status == "sat":
+            model = self.smaller_model(hyps, goal, model)
             ob.model = self.extract_model(model, state)
             ob.detail = "counter-model: " + str(ob.model)[:1500]
         self.obligations.append(ob)
         return status == "unsat"
+
+    def _param_lengths(self, val, acc):
+        if isinstance(val, SSeq):
+            if is_sym(val.length):
+                acc.append(val.length)
+        elif isinstance(val, (list, tuple)):
+            for v in val:
+                self._param_lengths(v, acc)
+        elif isinstance(val, dict):
+            for v in val.values():
+                self._param_lengths(v, acc)
+        elif hasattr(val, "fields") and isinstance(getattr(val, "fields"), dict):
+            for v in val.fields.values():
+                self._param_lengths(v, acc)
+
+    def smaller_model(self, hyps, goal, model):
+        """A violated obligation is reported with the smallest counter-model found quickly (replayable on the real code):
+        retry with every parameter length bounded by 3, then 6; keep the first model otherwise."""
+        lens = []
+        self._param_lengths(self.param_values, lens)
+        if not lens:
+            return model
+        for bound in (3, 6):
+            st, m, *_ = self.solver.check(hyps + [ln <= bound for ln in lens], goal, timeout_ms=3000, fallback=False)
+            if st == "sat":
+                return m
+        return model
 
     def extract_model(self, model, state):
         out = {}
